@@ -84,6 +84,8 @@ def gen_append(r, F, R, X):
         return {"src": "R", "target": list(r.choice(rp)), "mode": mode, "tree": r.choice([True, False, None]), "emdpath": None}
     if kind < 0.85:
         tgt = list(r.choice(rp))
+        if r.random() < 0.15:
+            tgt = []            # the Root itself saved under an emdpath (C09_emdpath_from_root)
         # emdpath: the node itself, its parent, an ancestor, a node DOWNSTREAM of it in the file, a random file node, or a
         # path that is not in the file at all
         c = r.random()
